@@ -283,9 +283,9 @@ theorem zip_map_self {α β} (f : α → β) (l : List α) : l.zip (l.map f) = l
   | nil => rfl
   | cons a l ih => simp [ih]
 
-theorem getMatch_out {name : Nat → List Char} {m : Mem} (h : (keys m.store).Nodup) (pat : List Char) :
-    (getMatch name m pat).2 = (m.store.filter (sel name m.now pat)).map (fun ke => (ke.1, some ke.2.val)) := by
-  unfold getMatch
+theorem getMatchAll_out {name : Nat → List Char} {m : Mem} (h : (keys m.store).Nodup) (pat : List Char) :
+    (getMatchAll name m pat).2 = (m.store.filter (sel name m.now pat)).map (fun ke => (ke.1, some ke.2.val)) := by
+  unfold getMatchAll
   simp only [(getMany_spec _ m).1]
   rw [zip_map_self, scan_eq, List.map_map]
   apply List.map_congr_left
@@ -294,9 +294,22 @@ theorem getMatch_out {name : Nat → List Char} {m : Mem} (h : (keys m.store).No
   simp only [List.mem_filter, sel, Bool.and_eq_true] at hke
   simp [Mem.view, lookup_of_mem h hke.1, Option.filter, hke.2.1]
 
-theorem getMatch_view (name : Nat → List Char) (m : Mem) (pat : List Char) (k : Key) :
-    (getMatch name m pat).1.view k = m.view k := by
+/-- what `get_match` yields: the selected entries that are not bit-field objects, each with its stored value
+(a stored `None` is `some .nil`, never the default `none`) -/
+theorem getMatch_out {name : Nat → List Char} {bits : Val → Bool} {m : Mem} (h : (keys m.store).Nodup) (pat : List Char) :
+    (getMatch name bits m pat).2 =
+      (m.store.filter (fun ke => sel name m.now pat ke && !bits ke.2.val)).map (fun ke => (ke.1, some ke.2.val)) := by
   unfold getMatch
+  simp only [getMatchAll_out h]
+  rw [List.filter_map, List.filter_filter]
+  congr 1
+  apply List.filter_congr
+  intro ke _
+  simp [yielded, Function.comp, Bool.and_comm]
+
+theorem getMatch_view (name : Nat → List Char) (bits : Val → Bool) (m : Mem) (pat : List Char) (k : Key) :
+    (getMatch name bits m pat).1.view k = m.view k := by
+  unfold getMatch getMatchAll
   exact (getMany_spec _ m).2.2 k
 
 end CashewsVerif.Glob
